@@ -4,8 +4,10 @@
 
    Hypotheses (all decidable on a concrete index; Examples ex_ok / ex_wf / ex_lwf beside the proofs):
      ok E i   every unloaded directory entry under the storage prefix names a loadable directory object;
-     wf E i   nothing is stored beneath (or twice at) an unloaded directory entry, the root key has
-              no entry - the premise of the property ("holds a directory as a single unloaded entry");
+     wf E i   nothing is stored beneath (or twice at) an unloaded directory entry - the premise of the
+              property ("holds a directory as a single unloaded entry").  An entry at the root key () is
+              allowed (a directory object at the root: then it is the only entry); a view never yields the
+              root entry itself ([vf] in C17_view) but loads its directory like any other;
      lwf E i  (C17_explicit only) the listings of the directory objects in play are trees: no row key
               is a proper prefix of another row key;  NoDup (map fst i): the index is a finite map.
 
@@ -69,14 +71,14 @@ Proof. exact loaded_is_fixed. Qed.
 Print Assumptions C17_loaded_fixed.
 
 (* a view with a prefix-closed filter exposes precisely the entries whose keys pass the filter *)
-Theorem C17_view : forall f i, prefix_closed f -> (forall x, In x i -> fst x <> []) ->
-  view_items_q f i = filter_res (fun c : key * option entry => f (fst c)) (items_q [] false i).
+Theorem C17_view : forall f i, prefix_closed f ->
+  view_items_q f i = filter_res (fun c : key * option entry => vf f (fst c)) (items_q [] false i).
 Proof. exact view_is_filter. Qed.
 Print Assumptions C17_view.
 
 Theorem C17_view_step : forall E f i, ok E i -> wf E i -> prefix_closed f ->
   snd (view_items_step E (load_all E i) f) =
-  filter_res (fun c : key * option entry => f (fst c)) (snd (items_step E (load_all E i) [] false)).
+  filter_res (fun c : key * option entry => vf f (fst c)) (snd (items_step E (load_all E i) [] false)).
 Proof. exact view_step_is_filter. Qed.
 Print Assumptions C17_view_step.
 
